@@ -19,7 +19,7 @@ package configmigrate
 //vx:stub gopkg.in/yaml.v3.NewEncoder vxC13NewEncoder
 //vx:note the document is an arbitrary untyped tree (lazy): the presence of a key is decided at its first lookup, nil-ness and dynamic type of a value at the first nil test / type assertion (so keys present / absent / null / of unexpected type all arise); bounds: at most 2 (quick) / 3 (thorough) of the keys a step looks at are present per map, strings 0..2 bytes, lists 0..2 elements, nesting depth 3
 //vx:note Step entry: each of the 29 steps is run alone through the real step table on an arbitrary document (so every chain of steps is panic-free); Migrate entry: the real Migrate with the last 1..2 steps
-//vx:note Chain entry: every window of 2..4 (quick) / 2..6 (thorough) consecutive steps (at most one inspected key present per map) run in one go through the real table: a chain must not fail with a type error on a value that an earlier step of the same run stored (the one-run vs several-runs clause, as far as it is visible without a YAML round trip)
+//vx:note Chain entry: every window of 2..4 (quick) / 2..6 (thorough) consecutive steps (at most one inspected key present per map; thorough: two for windows of 2..3 steps) run in one go through the real table: a chain must not fail with a type error on a value that an earlier step of the same run stored (the one-run vs several-runs clause, as far as it is visible without a YAML round trip)
 //vx:note outside: YAML text <-> value mapping (yaml.v3 is reflection driven), hence one-run vs split-run equality and acceptance by the current loader are not claimed
 
 import (
@@ -155,7 +155,12 @@ func vxC13Chain() {
 	}
 	// chains multiply the per-step cases: at most 1 of the inspected keys
 	// present per map
-	doc := vx.LazyObject(1)
+	keys := 1
+	if vx.Thorough() && length <= 3 {
+		// short windows: two of the inspected keys present per map
+		keys = 2
+	}
+	doc := vx.LazyObject(keys)
 	m := &Migrator{workingDir: "/w", dataDir: "/w/data"}
 	err := m.upgradeConfigSchema(uint(from), uint(from+length), doc)
 	if err == nil {
